@@ -15,7 +15,6 @@ From RP Require Import Lib.Base Model.Gorwp.
 
 (* ------------------------------------------------------------------ A. one event *)
 (* registrations in the order they were made; the latest one for (kind, id) is in force *)
-Definition reg := (kind * Z * handler)%type.
 Definition in_force (regs : list reg) (k : kind) (id : Z) : option handler :=
   fold_left (fun acc (r : reg) => let '(k', id', h) := r in if kind_eqb k k' && (id =? id') then Some h else acc) regs None.
 
@@ -46,26 +45,39 @@ Inductive hel :=
 | HDeliver (d : delivery)                      (* messages from the panel, to be dispatched *)
 | HBind (k : kind) (id : Z) (h : handler).     (* a Bind* call returns *)
 
-Definition msg_demands (who : kind -> Z -> option handler) (m : omsg) : list callrec * list titem :=
-  let chs := flat_map (event_calls who) (m_events m) in
-  (map fst chs,
-   (if m_flow m =? 1 then [TAck] else []) ++ flat_map (fun ch => h_sends (snd ch)) chs).
-
-Fixpoint delivery_demands (who : kind -> Z -> option handler) (d : delivery) : list callrec * list titem :=
-  match d with
-  | [] => ([], [])
-  | m :: r => let '(c1, s1) := msg_demands who m in let '(c2, s2) := delivery_demands who r in (c1 ++ c2, s1 ++ s2)
+(* The events of one message.  Handlers may register handlers themselves (for their own id or others):
+   such a registration is in force from the NEXT event on (the handlers for one event are determined
+   before any of them runs).  Result: the invocations in order, what the handlers send to the panel in
+   order, the registrations afterwards. *)
+Fixpoint events_demands (regs : list reg) (evs : list event) : list callrec * list titem * list reg :=
+  match evs with
+  | [] => ([], [], regs)
+  | e :: r =>
+    let chs := event_calls (in_force regs) e in
+    let '(c, s, regs') := events_demands (regs ++ flat_map (fun ch => h_binds (snd ch)) chs) r in
+    (map fst chs ++ c, flat_map (fun ch => fb_items (snd ch)) chs ++ s, regs')
   end.
 
-(* [regs]: registrations made so far.  Result: the invocations, in order, and what the panel receives
-   from the dispatcher, in order. *)
-Fixpoint demands (regs : list reg) (hist : list hel) : list callrec * list titem :=
+Definition msg_demands (regs : list reg) (m : omsg) : list callrec * list titem * list reg :=
+  let '(c, s, regs') := events_demands regs (m_events m) in
+  (c, (if m_flow m =? 1 then [TAck] else []) ++ s, regs').
+
+Fixpoint delivery_demands (regs : list reg) (d : delivery) : list callrec * list titem * list reg :=
+  match d with
+  | [] => ([], [], regs)
+  | m :: r => let '(c1, s1, regs1) := msg_demands regs m in
+              let '(c2, s2, regs2) := delivery_demands regs1 r in (c1 ++ c2, s1 ++ s2, regs2)
+  end.
+
+(* [regs]: registrations made so far.  Result: the invocations, in order, what the panel receives
+   from the dispatcher, in order, and the registrations at the end. *)
+Fixpoint demands (regs : list reg) (hist : list hel) : list callrec * list titem * list reg :=
   match hist with
-  | [] => ([], [])
+  | [] => ([], [], regs)
   | HBind k id h :: r => demands (regs ++ [(k, id, h)]) r
   | HDeliver d :: r =>
-    let '(c1, s1) := delivery_demands (in_force regs) d in
-    let '(c2, s2) := demands regs r in (c1 ++ c2, s1 ++ s2)
+    let '(c1, s1, regs1) := delivery_demands regs d in
+    let '(c2, s2, regs2) := demands regs1 r in (c1 ++ c2, s1 ++ s2, regs2)
   end.
 
 Definition delivered (hist : list hel) : list omsg :=
@@ -245,7 +257,7 @@ Definition judge (init : list (Z * iev)) (lost_in_init : bool) (hist : list hel)
     if negb lost_in_init && (o_conncls o =? 0) then JInit else JOk
   else if 2 <=? o_conncls o then JInit
   else
-    let '(xc, xs) := demands [] hist in
+    let '(xc, xs, _) := demands [] hist in
     match o_end o with
     | ETimeout | EOther | ENoConnect => JStall
     | _ =>
